@@ -288,6 +288,7 @@ fn outcome_label_list(o: &Outcome) -> Vec<String> {
 	add(o.durability_checks > 0, "durability-order-checked");
 	add(st.knowledge_lost > 0, "preimage-lost-in-crash-before-durable");
 	add(st.reforwards_after_undelivered > 0, "re-forward-after-undelivered-add-on-closed-channel");
+	add(st.non_strict_forwards > 0, "forwarded-over-another-channel-to-the-same-peer");
 	add(st.refused_forward_still_pending > 0, "obs:unforwarded-htlc-still-pending-after-restarts");
 	add(o.dist[1] > 0, "disturbance:async-update-in-flight-at-fulfil");
 	add(o.dist[2] > 0, "disturbance:disconnect");
